@@ -234,14 +234,17 @@ HARNESSES = {'json': h_json, 'stream_equals_string': h_stream_equals_string}
 
 def jobs(tier):
     out = []
-    shapes = [(2, 2)] if tier == 'quick' else [(2, 2), (2, 3), (3, 2)]
+    shapes = [(2, 2), (2, 3)] if tier == 'quick' else [(2, 2), (2, 3), (3, 2), (3, 3)]
     for nr, nc in shapes:
         for direct in (False, True):
-            out.append(('json', (nr, nc, 'plain', 'none', 'symbolic', direct)))
+            if tier != 'quick' or nr * nc <= 4:
+                out.append(('json', (nr, nc, 'plain', 'none', 'symbolic', direct)))
             for idk in ID_MENUS:
                 for mdk in MD_MENUS:
                     if tier == 'quick' and (idk, mdk) not in (('plain', 'none'), ('nasty', 'mixed'), ('plain', 'numpy-scalars'),
                                                               ('nasty', 'strings-with-quotes')):
+                        continue
+                    if tier == 'quick' and nr * nc > 4 and (idk, mdk) != ('nasty', 'mixed'):
                         continue
                     out.append(('json', (nr, nc, idk, mdk, 'concrete', direct)))
         for mdk in ('none', 'mixed'):
